@@ -403,6 +403,7 @@ func runCase(cs *Case, ci int, pty *ptyPair, em *emu, home string) (alive bool) 
 		rl.Config.Binds[km] = map[string]inputrc.Bind{}
 	}
 	curSess := 0
+	mainLine := rl.Line()
 	probeLog := func(name string) func() {
 		return func() {
 			logj(map[string]any{"ev": "probe", "c": cs.ID, "s": curSess, "cmd": name, "keys": ints(rl.Keys.Caller()),
@@ -423,6 +424,8 @@ func runCase(cs *Case, ci int, pty *ptyPair, em *emu, home string) (alive bool) 
 		}
 		su := cs.Setups[setupIdx]
 		setupIdx++
+		// an experiment starts without a pending numeric argument
+		rl.Iterations.Reset()
 		if su.Kill != nil {
 			rl.Buffers.Write(runes(su.Kill)...)
 		}
@@ -465,7 +468,7 @@ func runCase(cs *Case, ci int, pty *ptyPair, em *emu, home string) (alive bool) 
 			"c": cs.ID, "s": curSess, "line": ints(*rl.Line()), "cur": rl.Cursor().Pos(), "main": string(rl.Keymap.Main()),
 			"local": string(rl.Keymap.Local()), "sel": []int{bp, ep}, "selact": rl.Selection().Active(),
 			"upos": rl.History.Pos(), "kill": ints(rl.Buffers.GetKill()), "rec": rl.Macros.Recording(),
-			"argset": rl.Iterations.IsSet(), "mark": rl.Cursor().Mark(),
+			"argset": rl.Iterations.IsSet(), "mark": rl.Cursor().Mark(), "minibuf": rl.Line() != mainLine,
 		}
 		return m
 	}
